@@ -157,11 +157,12 @@ def setSrc (s : List (Nat × IsoName)) (a : Nat) (n : IsoName) : List (Nat × Is
 def lowerAscii (cs : List Nat) : List Nat := cs.map (fun c => if 65 ≤ c ∧ c ≤ 90 then c + 32 else c)
 def strCodes (s : String) : List Nat := s.toList.map Char.toNat
 
-/-- `str(raw_value)` for the primary-key string -/
+/-- one part of the primary-key string: `str(raw_value)`, text written with its length (`f"{len(raw)}:{raw}"`)
+so that it cannot be mistaken for an absent value or run into the next part -/
 def pyStr : PyVal → String
   | .none => "None"
   | .int z => toString z
-  | .str cs => String.ofList (cs.map Char.ofNat)
+  | .str cs => toString cs.length ++ ":" ++ String.ofList (cs.map Char.ofNat)
   | _ => "?"                       -- floats/bytes/dates never occur as primary keys in the database (table check `pk_kinds`)
 
 def hashKey (m : Msg) : String :=
